@@ -170,6 +170,16 @@ where
         let ska_file = BufReader::new(File::open(filename)?);
         let decompress_reader = snap::read::FrameDecoder::new(ska_file);
         let ska_obj: Self = ciborium::de::from_reader(decompress_reader)?;
+        // Only accept the integer width the file was written with, as small
+        // values of a 128-bit file also deserialise as 64-bit
+        if ska_obj.k_bits != IntT::n_bits() {
+            return Err(format!(
+                "{filename} uses {}-bit split k-mers, not {}-bit",
+                ska_obj.k_bits,
+                IntT::n_bits()
+            )
+            .into());
+        }
         Ok(ska_obj)
     }
 
